@@ -53,7 +53,7 @@ PROPS = {
     "C08": {
         "level": "exploration",
         "jobs": [
-            rapid("removal", "^TestC08$", {"checks": 12, "steps": 35, "shards": 8, "timeout": 900, "shrinktime": "30s"},
+            rapid("removal", "^TestC08$", {"checks": 24, "steps": 35, "shards": 8, "timeout": 900, "shrinktime": "30s"},
                   {"checks": 200, "steps": 50, "shards": 14, "timeout": 5000, "shrinktime": "120s"}),
         ],
     },
